@@ -36,6 +36,9 @@ CLAIMED = {
  "C10": ("other", "clone isomorphism of string/[]byte twins (generated wire programs and basictl clone pairs) modulo a declared substitution",
          "Decides that each []byte twin has the same TL1/TL2 wire programs, slot tables and nested-call order as its string version modulo the declared substitution, that slice-backed dictionary readers keep what they decode, and that the basictl clone pairs are AST-isomorphic modulo (utf8.ValidString↔Valid, DecodeRuneInString↔DecodeRune, string(x)↔x).",
          "trusts C33 for primitive pairs; corpus-bounded", "DESIGN.md §3 C10"),
+ "C12": ("other", "decision-table agreement between the dynamic interpreter and the generator/generated code (primitive table, presence rule, TL2 slot numbering, object framing)",
+         "Does NOT decide byte equality between the interpreter and generated code for all values. Decides that the interpreter's primitive value classes use the basictl primitive pairs the generated code uses for the same Go value types (TL1 and TL2, strings through the same length/padding helpers), that its struct class decides TL1 field presence by the same mask rule in reader and writer, that the TL2 slot numbering ((fieldIndex+1)%8 boundary and bit, bit 0 = variant index) is the same expression in the interpreter's reader, its writer and the generator's template, and that its TL2 object reader frames the body like the generated readers.",
+         "clause only; arrays, dictionaries and unions of the interpreter are covered only through the shared basictl calls", "DESIGN.md §8.2"),
  "C13": ("other", "framing/typestate rules on every generated TL2 object reader plus decision table of basictl.TL2ParseSize/SkipSizedValue",
          "Decides that each object reader resets on size 0, cuts the body by the declared size after rejecting size > input, reads every field from the body only, returns the post-cut input on every success path without testing the body for leftovers (appended fields are skipped), reads later presence bytes only when bytes remain (else 0) and gives every absent field its empty value; that TL2ParseSize selects its three forms by the first byte and rejects only truncation and >MaxInt (no minimality test) and SkipSizedValue rejects length > input. Value equality between minimal and non-minimal encodings is not decided beyond 'same path after the size is parsed'.",
          "corpus-bounded; unknown union variants are rejected by design", "DESIGN.md §3 C13"),
@@ -118,7 +121,6 @@ CLAIMED = {
 
 NOT_APPLICABLE = {
  "C11": "the property is agreement with an independent reference codec executed on values; its structural parts (layout tables, reader/writer duality) are decided under C33/C01/C03",
- "C12": "the dynamic interpreter is data-driven (loops over kernel fields at run time); there is no per-type code whose shape could be compared, and byte equality over all values needs execution",
  "C22": "print∘parse round trip and idempotence of a line-width-driven formatter are value-level; no structural necessary condition that would distinguish idempotence",
  "C27": "relates two generations of code from two schemas over all values; needs the kernel's semantics as oracle",
  "C29": "acceptance is the absence of every rejection on concrete schema pairs; a syntactic rule was considered and rejected as brittle",
